@@ -85,7 +85,7 @@ class C01(Check):
             'the low and of the high half of the debug id on two bases, (d) all ordered sequences of <=3 decodes over a '
             'pool of 8 records that share sub-fields (result must equal the solo decode), (e) all ordered triples over a 9-record pool '
             'reached through the container parsers (a v2 dump; v3 dumps for every composition of the 3 records into 1..3 chunks; two '
-            'v2 parses alive at once under every interleaving; records beginning with the v2 magic / a v3 tag; inter-chunk fillers of 4060..4099 bytes; chunks of 255..258 and 300 records next to another chunk; dumps that begin 1..4100 bytes into the stream; fillers ending with the first 1..6 bytes of the tag that follows), (f) every event id of the bundled code table (thorough: under each of the 4 qualifiers) as the first and third record of a 4-record dump whose later records carry OLDER timestamps, through a v2 dump, a two-chunk v3 dump and the facade listing. Oracle: independent byte-slicing '
+            'v2 parses alive at once under every interleaving; records beginning with the v2 magic / a v3 tag; inter-chunk fillers of 4060..4099 bytes; chunks of 255..258 and 300 records next to another chunk; dumps that begin 1..4100 bytes into the stream; fillers ending with the first 1..6 bytes of the tag that follows; thread maps listing one thread id several times; 1..7 bytes in front of an events tag), (f) every event id of the bundled code table (thorough: under each of the 4 qualifiers) as the first and third record of a 4-record dump whose later records carry OLDER timestamps, through a v2 dump, a two-chunk v3 dump and the facade listing. Oracle: independent byte-slicing '
             'decoder, the algebraic clauses, rebuild of the first 52 bytes, single-bit non-interference. Distinct by '
             'construction per sub-space; non-trivial = the record differs from its base (or, for histories, has length >=2).')
     assumptions = ('2^512 records are not enumerable: a special case keyed on a specific value outside the enumerated shapes '
@@ -267,6 +267,20 @@ class C01(Check):
                     acc.case(nontrivial=True, transitions=3)
                     if got != exp:
                         acc.violation('record-decoded-differently-through-container:' + label, {'kind': 'container-offset', 'offset': off, 'label': label}, {'got': repr(got)[:200]})
+            # thread maps that list one thread id twice / three times (with and without padding); 1..7 filler bytes in front of an events tag
+            recs = [P[0], P[1], P[2]]
+            exp = [ref_decode(r) for r in recs]
+            variants = [(f'v2-duplicate-tids-pad{pad}', B.v2(tm, pad, recs)) for pad in (0, 8, 40) for tm in ([(1, 2, 'a'), (1, 3, 'b')], [(1, 2, 'a'), (1, 3, 'b'), (1, 4, 'c'), (2, 2, 'd')])]
+            variants += [(f'v3-duplicate-tids', B.v3([(1, 2, 'a'), (1, 3, 'b'), (1, 4, 'c')], [recs[:1], recs[1:]]))]
+            variants += [(f'v3-gap-of-{L}-bytes', B.v3([(1, 2, 'a')], [recs[:1], recs[1:2], recs[2:]], gap=b'q' * L, more_word=b'')) for L in range(1, 8)]
+            for label, blob in variants:
+                try:
+                    got = events(blob)
+                except Exception as ex:
+                    got = repr(ex)
+                acc.case(nontrivial=True, transitions=3)
+                if got != exp:
+                    acc.violation('record-decoded-differently-through-container:' + label.split('-pad')[0].split('-of-')[0], {'kind': 'container-maps', 'label': label}, {'got': repr(got)[:200]})
             # fillers that END with the first 1..6 bytes of the tag that follows them (a scanner that does not fall back after a
             # partial match misses the tag)
             recs = [P[0], P[1], P[2]]
